@@ -19,6 +19,7 @@ mvars == <<l, m>>
 NoX == [s |-> "", kind |-> "", reqs |-> {}, rids |-> {}, from |-> -1, leid |-> "", stream |-> "?", status |-> 0, sse |-> FALSE,
         n |-> 0, cut |-> FALSE, ended |-> FALSE, mayConflict |-> FALSE, known |-> FALSE,
         tags |-> {},          \* tags of the messages received so far
+        lastpos |-> 0,        \* position in the stream's history of the latest message received (C03)
         purged |-> FALSE]     \* the store reported that the requested events were purged (its contract, see C20)
 
 M0 == [store |-> FALSE, json |-> FALSE, stateless |-> FALSE,
@@ -47,6 +48,10 @@ Standalone(xr) == xr.kind = "get" /\ xr.stream = ""
 Scope(xr) == m.store /\ ~m.stateless /\ xr.sse /\ xr.kind \in {"init", "sub", "call", "get"}
 TagOf(e) == IF e.kind = "prime" THEN "prime" ELSE e.tag
 Finished(s, t) == \E r \in Own(s, t) : \E i \in DOMAIN Log(s, t) : Log(s, t)[i] = s \o "." \o r \o ".resp"
+
+\* first position after `after` at which the history lg holds tag (0 if none)
+PosIn(lg, tag, after) == LET S == {i \in DOMAIN lg : i > after /\ lg[i] = tag} IN
+                         IF S = {} THEN 0 ELSE CHOOSE i \in S : \A k \in S : i <= k
 
 MInit == l = 1 /\ m = M0 /\ MarkInit
 
@@ -86,8 +91,9 @@ OnEv(e) ==
       pos == xr.from + j + 1                      \* 1-based position in the store log
       idk == <<xr.s, e.stream, e.idx>>
       msg == e.kind \in {"resp", "notif", "sreq", "bcast", "cancel"}
+      hp == PosIn(lg, TagOf(e), xr.lastpos)       \* where the stream's history has this message (0: nowhere after lastpos)
   IN
-  /\ m' = [m EXCEPT !.xs = Put(m.xs, e.x, [xr EXCEPT !.n = j, !.tags = @ \cup {e.tag}]),
+  /\ m' = [m EXCEPT !.xs = Put(m.xs, e.x, [xr EXCEPT !.n = j, !.tags = @ \cup {e.tag}, !.lastpos = IF hp > 0 THEN hp ELSE @]),
                     !.ids = IF e.idx >= 0 /\ idk \notin DOMAIN m.ids THEN Put(m.ids, idk, TagOf(e)) ELSE @]
   /\ Check(l, "X.Known", xr.known)
   \* ---- C08
@@ -96,6 +102,13 @@ OnEv(e) ==
           /\ Check(l, "C08.StoreBeforeDeliver", Len(lg) >= pos)
           /\ Check(l, "C08.ResumeExact", Len(lg) >= pos => lg[pos] = TagOf(e))
           /\ Check(l, "C08.IdStable", (e.idx >= 0 /\ idk \in DOMAIN m.ids) => m.ids[idk] = TagOf(e))
+          \* ---- C03 (server-to-client order on one stream): a message never arrives after one the server wrote
+          \* to the same stream later.  Loss and duplication are C08's business, not this clause's.
+          /\ Check(l, "C03.SameStreamOrder", TagOf(e) = "" \/ ~(\E i \in 1..(xr.lastpos - 1) : lg[i] = TagOf(e)) \/ hp > 0)
+     ELSE TRUE
+  \* a call's response arrives at most once on one HTTP exchange (C02)
+  /\ IF e.kind = "resp" /\ e.tag # "" /\ ~m.cleanup
+     THEN Check(l, "C02.HttpAnsweredAtMostOnce", e.tag \notin xr.tags)
      ELSE TRUE
   \* ---- C10
   /\ IF msg /\ e.tag # "" /\ ~m.cleanup
@@ -154,6 +167,11 @@ OnStep(e) ==
             IF p[1] \in m.dead THEN TRUE
             ELSE /\ (p[4] # "" /\ ~X(p[4]).cut /\ ~X(p[4]).ended) =>
                       Check(l, "C10.CancelNoticeOnRequestStream", p[3] \in X(p[4]).tags)
+                 \* C04: with the request's exchange attached the connection is healthy, so the notice reaches the
+                 \* peer (on whichever exchange of the session) and the peer's handler can be cancelled
+                 /\ (p[4] # "" /\ ~X(p[4]).cut /\ ~X(p[4]).ended) =>
+                      Check(l, "C04.CancelNoticeReachesPeer",
+                            \E n \in DOMAIN m.xs : m.xs[n].s = p[1] /\ p[3] \in m.xs[n].tags)
                  /\ m.store =>
                       Check(l, "C10.CancelNoticeOnRequestStream",
                             IF m.json THEN \E i \in DOMAIN Log(p[1], "") : Log(p[1], "")[i] = p[3]
@@ -171,6 +189,14 @@ OnQuiesce(e) ==
   /\ IF m.store /\ ~m.stateless
      THEN \A p \in m.rets : p[1] \notin m.dead => Check(l, "C08.WriteRecorded", Recorded(p[1], p[1] \o "." \o p[2] \o ".resp"))
      ELSE TRUE
+  \* C02 on the streamable transport: a POSTed call whose handler has returned its result has its response on
+  \* that POST's exchange (unless the client cut the exchange or the session was terminated)
+  /\ \A n \in DOMAIN m.xs :
+       LET xr == m.xs[n] IN
+       IF xr.kind = "call" /\ ~xr.cut /\ xr.s \notin m.dead /\ xr.status \in {0, 200} /\ ~m.cleanup
+       THEN \A r \in xr.reqs : <<xr.s, r>> \in m.rets =>
+               Check(l, "C02.HttpCallAnswered", (xr.s \o "." \o r \o ".resp") \in xr.tags)
+       ELSE TRUE
   /\ \A n \in DOMAIN m.xs :
        LET xr == m.xs[n] IN
        IF Scope([xr EXCEPT !.sse = (xr.sse \/ (xr.status = 0 /\ ~m.json))]) /\ ~xr.ended /\ ~xr.cut
